@@ -653,7 +653,7 @@ example : Gen.FactsC05.setCheckAndClearDirty = [
 
 /-- shard/index/text/text.go `setCacheItem.ReadFrom`: an absent posting key is the empty set (Model.getSet) -/
 example : Gen.FactsC05.setReadFrom = [
-  "v4 := v3.Get(v1(v2))",
+  "v4 := v3.Get(termKey(v2))",
   "v5 := roaring64.New()",
   "if v4 != nil {",
   "if _, v6 := v5.ReadFrom(bytes.NewReader(v4)); v6 != nil {",
@@ -667,13 +667,13 @@ example : Gen.FactsC05.setReadFrom = [
 /-- shard/index/text/text.go `setCacheItem.WriteTo`: an empty posting loses its key (Model.flush) -/
 example : Gen.FactsC05.setWriteTo = [
   "if v1.set.IsEmpty() {",
-  "if v4 := v3.Delete(v1(v2)); v4 != nil {",
+  "if v4 := v3.Delete(termKey(v2)); v4 != nil {",
   "return fmt.Errorf(\"%w\", v4)",
   "}",
   "return nil",
   "}",
   "v5, v6 := v1.set.ToBytes()",
-  "if v7 := v3.Put(v1(v2), v5); v7 != nil {",
+  "if v7 := v3.Put(termKey(v2), v5); v7 != nil {",
   "return fmt.Errorf(\"%w\", v7)",
   "}",
   "return nil"
@@ -681,7 +681,7 @@ example : Gen.FactsC05.setWriteTo = [
 
 /-- shard/index/text/text.go `docCacheItem.ReadFrom`: an absent record is ErrNotFound (`exists` in processAnalysedDoc) -/
 example : Gen.FactsC05.docReadFrom = [
-  "v6 := v3.Get(v1(v2))",
+  "v6 := v3.Get(documentKey(v2))",
   "if v6 == nil {",
   "v5 = cache.ErrNotFound",
   "return",
@@ -693,13 +693,13 @@ example : Gen.FactsC05.docReadFrom = [
 /-- shard/index/text/text.go `docCacheItem.WriteTo`: record write-back -/
 example : Gen.FactsC05.docWriteTo = [
   "if v1.Length == 0 {",
-  "if v4 := v3.Delete(v1(v2)); v4 != nil {",
+  "if v4 := v3.Delete(documentKey(v2)); v4 != nil {",
   "return fmt.Errorf(\"%w\", v4)",
   "}",
   "return nil",
   "}",
   "v5, v6 := msgpack.Marshal(v1)",
-  "if v7 := v3.Put(v1(v2), v5); v7 != nil {",
+  "if v7 := v3.Put(documentKey(v2), v5); v7 != nil {",
   "return fmt.Errorf(\"%w\", v7)",
   "}",
   "return nil"
@@ -707,41 +707,41 @@ example : Gen.FactsC05.docWriteTo = [
 
 /-- shard/index/dispatch.go `preProcessText`: every change that reaches the drain is sent on; absent new text = empty text (Model.dispatchText) -/
 example : Gen.FactsC05.preProcessText = [
-  "v3.Id = v2.nodeId",
-  "if v2.newData != nil {",
-  "v6, v7 := v2.newData.(string)",
-  "if !v7 {",
-  "v5 = fmt.Errorf(\"%v\", v2.newData)",
+  "v2.Id = v1.nodeId",
+  "if v1.newData != nil {",
+  "v5, v6 := v1.newData.(string)",
+  "if !v6 {",
+  "v4 = fmt.Errorf(\"%v\", v1.newData)",
   "return",
   "}",
-  "v3.Text = v6",
+  "v2.Text = v5",
   "}",
   "return"
 ] := rfl
 
 /-- shard/index/utils.go `getOperation`: absent/absent is the only skipped combination (Model.dispatchText) -/
 example : Gen.FactsC05.getOperation = [
-  "v6, v9 = v1(v2, v4, v3)",
-  "if v9 != nil {",
-  "v9 = fmt.Errorf(\"%s %w\", v3, v9)",
+  "v5, v8 = getPropertyFromBytes(v1, v3, v2)",
+  "if v8 != nil {",
+  "v8 = fmt.Errorf(\"%s %w\", v2, v8)",
   "return",
   "}",
-  "v7, v9 = v1(v2, v5, v3)",
-  "if v9 != nil {",
-  "v9 = fmt.Errorf(\"%s %w\", v3, v9)",
+  "v6, v8 = getPropertyFromBytes(v1, v4, v2)",
+  "if v8 != nil {",
+  "v8 = fmt.Errorf(\"%s %w\", v2, v8)",
   "return",
   "}",
   "switch {",
-  "case v6 == nil && v7 != nil:",
-  "v8 = opInsert",
-  "case v6 != nil && v7 != nil:",
-  "v8 = opUpdate",
-  "case v6 != nil && v7 == nil:",
-  "v8 = opDelete",
-  "case v6 == nil && v7 == nil:",
-  "v8 = opSkip",
+  "case v5 == nil && v6 != nil:",
+  "v7 = opInsert",
+  "case v5 != nil && v6 != nil:",
+  "v7 = opUpdate",
+  "case v5 != nil && v6 == nil:",
+  "v7 = opDelete",
+  "case v5 == nil && v6 == nil:",
+  "v7 = opSkip",
   "default:",
-  "v9 = fmt.Errorf(\"%s %v %v\", v3, v6, v7)",
+  "v8 = fmt.Errorf(\"%s %v %v\", v2, v5, v6)",
   "}",
   "return"
 ] := rfl
